@@ -797,7 +797,13 @@ func c23GenDirPlan(t *rapid.T, b *c23Builder, dir string, mPool, fPool []string,
 			case "symlink":
 				b.setInitial(c23Entry{Path: p, Kind: "symlink", Target: rapid.SampledFrom([]string{"README", "nonexistent", ".", name, "/usr/bin/snap"}).Draw(t, "old-target")})
 			case "emptydir":
-				b.setInitial(c23Entry{Path: p, Kind: "dir", Perm: 0755})
+				// rare in the tree engine: an empty directory with a managed name makes
+				// the pruning of its parents an open point of the model
+				if !foreignDirs && !c23Choose(t, "tree-emptydir", []bool{true, false, false, false}) {
+					b.setInitial(c23Entry{Path: p, Kind: "file", Data: c23Lit("was-a-file"), Perm: 0644})
+				} else {
+					b.setInitial(c23Entry{Path: p, Kind: "dir", Perm: 0755})
+				}
 			}
 		case "keep":
 			w := c23GenWant(t, dir, name)
